@@ -242,8 +242,23 @@ func (matrix *DenseFloat64Matrix) Tip() {
   matrix.rowOffset, matrix.colOffset = matrix.colOffset, matrix.rowOffset
   matrix.rowMax, matrix.colMax = matrix.colMax, matrix.rowMax
 }
+func (matrix *DenseFloat64Matrix) asVector() DenseFloat64Vector {
+  if matrix.rows != matrix.rowMax || matrix.cols != matrix.colMax {
+    // sliced matrix: collect the elements of the slice
+    n, m := matrix.Dims()
+    v := make([]float64, n*m)
+    for i := 0; i < n; i++ {
+      for j := 0; j < m; j++ {
+        v[i*m + j] = matrix.values[matrix.index(i, j)]
+      }
+    }
+    return DenseFloat64Vector(v)
+  } else {
+    return DenseFloat64Vector(matrix.values)
+  }
+}
 func (matrix *DenseFloat64Matrix) AsVector() Vector {
-  return DenseFloat64Vector(matrix.values)
+  return matrix.asVector()
 }
 func (matrix *DenseFloat64Matrix) storageLocation() uintptr {
   return uintptr(unsafe.Pointer(&matrix.values[0]))
@@ -332,7 +347,7 @@ func (matrix *DenseFloat64Matrix) IsSymmetric(epsilon float64) bool {
   return true
 }
 func (matrix *DenseFloat64Matrix) AsConstVector() ConstVector {
-  return DenseFloat64Vector(matrix.values)
+  return matrix.asVector()
 }
 /* implement ScalarContainer
  * -------------------------------------------------------------------------- */
